@@ -20,7 +20,7 @@ MON = {"selfdesc", "reopen"}
 
 
 def units(tier, seed):
-    return CC.make_units(tier, seed, 400, 12000)
+    return CC.make_units(tier, seed, 400, 9000)
 
 
 def run_unit(u, acc):
